@@ -55,7 +55,7 @@ Section C01.
 
   Theorem upgrade_plan_result T Cur :
     match upgrade_plan G T Cur with
-    | POk plan => C01_holds (G, T, Cur) (POk plan)
+    | POk plan => forall t, ref_agrees G Cur t T = true -> C01_holds (G, t, T, Cur) (POk plan)
     | PErr PEOverlap => Overlapping G T \/ Overlapping G Cur
     | PErr _ => False
     end.
@@ -75,7 +75,7 @@ Section C01.
       - intros A. apply (proj2 Hy). eapply AncOf_down; eauto. }
     { intros y Hy. apply Hneeds in Hy. destruct Hy as [[t [Ht P]] Hn]. exists t. split; auto. split; auto.
       apply Hneeds. split; [apply AncOf_self; auto|]. intros A. apply Hn. eapply AncOf_down; eauto. }
-    rewrite Eo. cbn [C01_holds]. split; [apply NoDup_rev; auto|]. split.
+    rewrite Eo. intros t Hrt. cbn [C01_holds]. split; [exact Hrt|]. split; [apply NoDup_rev; auto|]. split.
     - intros r. rewrite <- in_rev, Hino. apply Hneeds.
     - intros pre r post E p Hp.
       assert (Anc G r p) as Arp by (eapply path_step; [exact Hp|constructor]).
@@ -94,14 +94,16 @@ Section C01.
           rewrite <- !app_assoc. simpl. reflexivity. }
         apply (Hord _ _ _ Eo' r); [apply in_or_app; right; left; auto|]. exact Arp. Qed.
 
-  Theorem model_holds T Cur : C01_holds (G, T, Cur) (upgrade_plan G T Cur).
-  Proof. pose proof (upgrade_plan_result T Cur) as H. destruct (upgrade_plan G T Cur) as [plan|e]; auto. Qed.
+  Theorem model_holds t T Cur : ref_agrees G Cur t T = true -> C01_holds (G, t, T, Cur) (upgrade_plan G T Cur).
+  Proof. intros Hrt. pose proof (upgrade_plan_result T Cur) as H. destruct (upgrade_plan G T Cur) as [plan|e]; [auto|].
+    cbn [C01_holds]. split; [exact Hrt|]. destruct e; auto. Qed.
 
   Theorem upgrade_total T Cur e : upgrade_plan G T Cur = PErr e -> e = PEOverlap.
   Proof. intros E. pose proof (upgrade_plan_result T Cur) as H. rewrite E in H. destruct e; tauto. Qed.
 
-  Theorem decider_sound T Cur out : check_C01 (G, T, Cur) out = true -> C01_holds (G, T, Cur) out.
-  Proof. unfold check_C01, C01_holds. destruct out as [plan|e].
+  Theorem decider_sound t T Cur out : check_C01 (G, t, T, Cur) out = true -> C01_holds (G, t, T, Cur) out.
+  Proof. unfold check_C01, C01_holds. rewrite andb_true_iff. intros [Hrt H]. split; [exact Hrt|]. revert H.
+    destruct out as [plan|e].
     - rewrite !andb_true_iff, nodupb_NoDup, seteqN_spec. intros [[H1 H2] H3].
       destruct (ancs_spec T) as [_ HT]. destruct (ancs_spec Cur) as [_ HC].
       split; auto. split.
@@ -112,6 +114,6 @@ Section C01.
       { intros X H. unfold overlapping in H. apply existsb_exists in H. destruct H as [a [Ha H]].
         apply existsb_exists in H. destruct H as [b [Hb H]]. apply andb_true_iff in H. destruct H as [Hne Hm].
         apply negb_true_iff, N.eqb_neq in Hne. apply memN_In in Hm. apply (proj2 (ancs_spec [a])) in Hm.
-        destruct Hm as [t [[<-|[]] P]]. exists a, b. auto. }
+        destruct Hm as [t0 [[<-|[]] P]]. exists a, b. auto. }
       intros [H|H]; [left|right]; auto. Qed.
 End C01.
